@@ -45,8 +45,30 @@ func runC15(c *Ctx) {
 	if c.thorough() {
 		nUsers = 400
 	}
+	// every parse is done twice: from one buffer, which the caller then wipes (as one does with secrets), and from a
+	// second buffer holding the same text - what is parsed depends on the text handed in, nothing else
+	wipe := func(b []byte) {
+		for i := range b {
+			b[i] = 'x'
+		}
+	}
 	parseSeedCase := func(contents string) {
+		b1 := []byte(contents)
+		kp1, err1 := jwt.ParseDecoratedNKey(b1)
+		var sd1 []byte
+		if err1 == nil {
+			sd1, _ = kp1.Seed()
+			sd1 = append([]byte{}, sd1...)
+		}
+		wipe(b1)
 		kp, err := jwt.ParseDecoratedNKey([]byte(contents))
+		if (err == nil) != (err1 == nil) {
+			c.violation("C15: parsing the same credentials text a second time (after the first buffer was wiped) gives another outcome", map[string]interface{}{"contents": contents, "op": "ParseDecoratedNKey"})
+		} else if err == nil {
+			if sd2, _ := kp.Seed(); string(sd2) != string(sd1) {
+				c.violation("C15: parsing the same credentials text a second time (after the first buffer was wiped) gives another seed", map[string]interface{}{"contents": contents, "op": "ParseDecoratedNKey"})
+			}
+		}
 		obs := "None"
 		if err == nil {
 			sd, _ := kp.Seed()
@@ -57,7 +79,14 @@ func runC15(c *Ctx) {
 		w.add("(CRParseSeed "+coqStr(contents)+" "+obs+")", map[string]interface{}{"contents": contents, "op": "ParseDecoratedNKey"})
 	}
 	parseJWTCase := func(contents string) string {
+		b1 := []byte(contents)
+		got1, _ := jwt.ParseDecoratedJWT(b1)
+		got1 = string(append([]byte{}, got1...))
+		wipe(b1)
 		got, _ := jwt.ParseDecoratedJWT([]byte(contents))
+		if got != got1 {
+			c.violation("C15: parsing the same credentials text a second time (after the first buffer was wiped) gives another token", map[string]interface{}{"contents": contents, "op": "ParseDecoratedJWT", "first": got1, "second": got})
+		}
 		w.add("(CRParseJWT "+coqStr(contents)+" "+coqStr(got)+")", map[string]interface{}{"contents": contents, "op": "ParseDecoratedJWT"})
 		return got
 	}
